@@ -193,7 +193,14 @@ def r_axis_binding(rule, root=None):
                 else:
                     rule.bad("tracing|Var::V", "a free variable must be looked up by its own id and a missing one returned as MissingVar", A.where(t, arm))
     # transform applied in (x, y, z) order on both branches
-    for fn, label in ((t, "tracing"), (b, "bulk")):
+    for fn0, label in ((t, "tracing"), (b, "bulk")):
+        # a private helper that applies the optional transform is read in place
+        fn = dict(fn0)
+        if not [c for c in A.find(fn0["body"], "Call") if (A.path_segs(c["func"]) or [])[-2:] == ["Transformable", "transform"]]:
+            try:
+                fn["body"] = A.inline_helpers(fn0, private_only=True, keep=("eval", "eval_raw"))
+            except Exception:  # noqa: BLE001
+                pass
         calls = [c for c in A.find(fn["body"], "Call") if (A.path_segs(c["func"]) or [])[-2:] == ["Transformable", "transform"]]
         if len(calls) != 1:
             rule.lost("Transformable::transform call in %s eval_raw" % label)
@@ -213,8 +220,12 @@ def r_axis_binding(rule, root=None):
                 sub = {nm: "%s[%s]" % (src, lanes[0]) for nm, src in lanes[1].items()}
                 args = [sub.get(a_, a_) for a_ in args[:3]] + args[3:]
                 want = ["%s[%s]" % (p_, lanes[0]) for p_ in "xyz"]
+        via_pos = [str(A.ftxt(a_)) for a_ in c["args"][:3]]
+        via_pos = len(via_pos) == 3 and all(v_.endswith(".%d" % k_) for k_, v_ in enumerate(via_pos)) and len({v_.rsplit(".", 1)[0] for v_ in via_pos}) == 1
         if args[:3] == want and len(args) == 4:
             rule.ok("%s: transform(x, y, z, t) in axis order" % label, file=SHAPE, line=c["ln"])
+        elif via_pos and len(args) == 4:
+            rule.ok("%s: transform(pos.0, pos.1, pos.2, t) of a named position (its components are checked with the identity branch)" % label, file=SHAPE, line=c["ln"])
         else:
             rule.bad("%s|transform-args" % label, "%s eval_raw calls transform(%s)" % (label, ", ".join(args)), A.where(fn, c))
         # the choice around it: with Some(t) the transformed point, with None (x, y, z) unchanged - written as
@@ -224,7 +235,42 @@ def r_axis_binding(rule, root=None):
             if any(n is c for n in A.walk(cand)):
                 holder = cand
                 break
+        mo = None
         if holder is None:
+            for mc in A.find(fn["body"], "MethodCall"):
+                if mc["method"] in ("map_or", "map_or_else") and len(mc["args"]) == 2 and any(n is c for n in A.walk(mc["args"][1])) and A.strip(mc["args"][1]).get("k") == "Closure":
+                    mo = mc
+                    break
+        if mo is not None:
+            clo = A.strip(mo["args"][1])
+            pn = A.binding_name(clo["inputs"][0]) if len(clo.get("inputs", [])) == 1 else None
+            okp = pn == args[3] and A.option_source(mo["recv"]) == "transform"
+            ident = A.strip(mo["args"][0])
+            if mo["method"] == "map_or_else" and ident.get("k") == "Closure":
+                ident = A.strip(ident["body"])
+            el = E.canon(A.unblock(ident), env)
+            # a named untransformed position `let pos = (x[i], y[i], z[i]);` handed to both sides
+            pos_n = A.ident(ident)
+            if pos_n:
+                lets_ = [l_ for l_ in A.find(fn["body"], "Let") if A.binding_name(l_["pat"]) == pos_n and l_.get("init") is not None and A.strip(l_["init"]).get("k") == "Tuple"]
+                if lets_:
+                    comps = [str(A.ftxt(A.strip(e_))) for e_ in A.strip(lets_[0]["init"])["elems"]]
+                    el = "(%s)" % ",".join(comps)
+                    raw = [str(A.ftxt(a_)) for a_ in c["args"][:3]]
+                    if raw == ["%s.%d" % (pos_n, k_) for k_ in range(3)]:
+                        args = comps + args[3:]
+            if lanes is not None and lanes[0] and lanes[1]:
+                import re as _re
+                el = _re.sub(r"\b(\w+)\b", lambda m_: ("%s[%s]" % (lanes[1][m_.group(1)], lanes[0])) if m_.group(1) in lanes[1] else m_.group(0), el)
+            if args[:3] != want:
+                rule.bad("%s|transform-args" % label, "%s eval_raw calls transform(%s)" % (label, ", ".join(args)), A.where(fn, c))
+            if el != "(%s)" % ",".join(want):
+                rule.bad("%s|no-transform" % label, "%s eval_raw without a transform must pass (%s) through unchanged, found %s" % (label, ", ".join(want), el), A.where(fn, mo))
+            else:
+                rule.ok("%s: identity branch passes (x, y, z) through" % label)
+            if not okp:
+                rule.bad("%s|transform-cond" % label, "the transform must be applied whenever one is supplied", A.where(fn, mo))
+        elif holder is None:
             rule.bad("%s|transform-cond" % label, "the transform must be applied exactly when one is supplied (no `Some(t)` choice found around the call)", A.where(fn, c))
         else:
             leaves = A.branch_leaves(holder)
